@@ -216,6 +216,12 @@ def run_cases(module: str, cases: list[dict], *, workers: int, case_timeout: flo
             if next_probe is not None and elapsed >= next_probe and worker.proc:
                 diag = quiescence.diagnose(worker.proc.pid, worker.log_path, scope=quiescence_scope)
                 if diag["verdict"] == "quiescent":
+                    # believe it only if a second, independent look a moment later says the same
+                    late = worker.read_line(1.5)
+                    if isinstance(late, dict):
+                        return late
+                    diag = quiescence.diagnose(worker.proc.pid, worker.log_path, scope=quiescence_scope)
+                if diag["verdict"] == "quiescent":
                     # the answer may have arrived while we were sampling (an idle worker waiting for its next
                     # case is quiescent too): look into the channel before believing the diagnosis
                     late = worker.read_line(0.2)
